@@ -1,6 +1,6 @@
 SPECIFICATION Spec
 CONSTANTS Threads <- T  Att <- A  Scenarios <- Scn
-INVARIANTS MutualExclusion OwnerImpliesLocked EachLockOnce CancelledNeverOwns DoneOnlyIfCancelled FIFOGrant Terminal PoppedNotCompleted
+INVARIANTS MutualExclusion OwnerImpliesLocked EachLockOnce CancelledNeverOwns DoneOnlyIfCancelled FIFOGrant Terminal PoppedNotCompleted AffineCompletion
 VIEW View
 ACTION_CONSTRAINT EdgeLog
 CHECK_DEADLOCK TRUE
